@@ -181,6 +181,8 @@ def build_args(case):
 
 
 def call(case):
+    from harness.libstate import set_identifier_generators
+    set_identifier_generators(case.get("id_offset", 0))
     objs, canons = build_args(case)
     old = GambaTools.pda_epsilon_closure_max_iterations
     GambaTools.pda_epsilon_closure_max_iterations = PDA_LIMIT
@@ -342,7 +344,18 @@ def op_cases(draw, tier, names=None):
             args[k] = words[draw(st.integers(0, len(words) - 1))] if words else None
     if "dfa" in args and "dfa2" in args and "S" in args["dfa"]:
         args["dfa2"]["S"] = list(args["dfa"]["S"])
-    return {"op": op, "args": args}
+    return {"op": op, "args": args, "id_offset": draw(st.integers(0, 3))}
+
+
+@st.composite
+def logging_cases(draw, tier):
+    # half of the cases go to the operations that write log output at all (found by reading the source: the Hopcroft minimiser), with automata large
+    # enough for their refinement loops to do something; the other half to the whole registry
+    if draw(st.booleans()):
+        op = draw(st.sampled_from(["dfa_hopfcroft", "dfa_minimize_size"]))
+        sigma = draw(st.sampled_from([["a", "b"], ["a", "b", "c"]]))
+        return {"op": op, "args": {"dfa": draw(G.dfa_specs(min_states=4, max_states=8, sigma=sigma))}, "id_offset": 0}
+    return draw(op_cases(tier))
 
 
 HASH_SENSITIVE = ["dfa_minimize", "dfa_quotient", "dfa_hopfcroft", "dfa_minimize_size", "dfa_to_regexp", "dfa_isomorphic", "dfa_isomorphic1", "nfa_to_dfa", "nfa_simulate_word",
@@ -383,7 +396,7 @@ CLAUSES = [
     Clause("hashseed", hash_cases, run_hashseed, quick=2500, thorough=12000, crossproc=True,
            rule="the same generated cases (fixed Hypothesis seed) are evaluated in every worker process, each with a different PYTHONHASHSEED; the parent compares the result "
                 "signatures case by case; non-trivial: non-empty result for an argument with >= 2 states / variables"),
-    Clause("logging", op_cases, run_logging, quick=800, thorough=6000,
+    Clause("logging", logging_cases, run_logging, quick=800, thorough=6000,
            rule="every registry operation with GambaTools.enable_logging off and on (stdout swallowed): same signature, arguments intact"),
     Clause("history", history_cases, run_history, quick=500, thorough=4000,
            rule="model-based programs: probes (operation, argument specs) interleaved with other probes, _in_place operations on private copies, logging toggles and closure-limit "
